@@ -56,6 +56,9 @@ def run(chk, tier):
         fn, paths, rows = E.eval_dyn_table(chk, F, 'R18.4.table', cfg)
         E.method_isolation(chk, F, 'R18.4', cfg, paths)
         A.push_table(chk, F, 'R18.4.push', cfg)
+        # R18.7 'clones share everything': a call's position (match index, ordered slot) is the result of one atomic RMW on the shared state, whichever handle it came through
+        from props.c10 import position_is_rmw
+        position_is_rmw(chk, F, 'R18.7', cfg)
         # R18.6 the verdict does not depend on which handle lent a value / ran a default body: the instance's own helper and chain are
         # released before teardown looks at anything (in particular before the live-clone count is read)
         tfn, tpaths, trows = L.teardown_table(chk, F, 'R18.6', cfg)
